@@ -26,7 +26,7 @@ ERRNOS = [errno.EACCES, errno.EPERM, errno.EROFS, errno.ENOSPC, errno.EIO, errno
           errno.ENOTDIR, errno.EDQUOT]
 LAYOUTS = ['alt-first-use', 'top-sticky', 'home', 'alt-existing', 'top-sticky-and-alt', 'collision']
 # (the fault-index obligations use the first six; the one-cause obligation adds the cross-volume home fallback)
-LAYOUTS_D = LAYOUTS + ['fallback-cross-volume']
+LAYOUTS_D = LAYOUTS + ['fallback-cross-volume', 'home-trash-is-a-link-to-another-volume']
 
 
 FORCE = [False]  # set by the -f obligations around a case (the option must not turn a failure into a silent success)
@@ -47,6 +47,11 @@ def scenario(kind, layout):
                   W.d('/v/.Trash-1000/files', 0o700), W.d('/v/.Trash-1000/info', 0o700)]
     elif l == 'collision':
         nodes += K.trashed('/v/.Trash-1000', 'x', 'd/x', '2019-01-01T00:00:00', 'file', 2000)
+    elif l == 'home-trash-is-a-link-to-another-volume':
+        # ~/.local/share/Trash -> /v/bigdisk/Trash: for an entry of the home volume that directory is on ANOTHER volume
+        # (no fallback asked for): it must be passed over, never copied into
+        src = '/h/w/x'
+        nodes += [W.d('/h/.local/share'), W.d('/v/bigdisk/Trash', 0o700), W.l('/h/.local/share/Trash', '/v/bigdisk/Trash', 905)]
     nodes += K.entry_nodes(kind, src, 1000)
     cwd = src.rsplit('/', 1)[0]
     args, e = [], scen.env()
@@ -157,10 +162,10 @@ def _dirfault(kind, layout, dsel, e):
 def w_dirfault(kind: int, layout: int, dsel: int, e: int) -> str:
     """
     pre: PARTITION is None or layout == PARTITION
-    pre: 0 <= kind < 6 and 0 <= layout < 7 and 0 <= dsel < 17 and 0 <= e < 3
+    pre: 0 <= kind < 6 and 0 <= layout < 8 and 0 <= dsel < 17 and 0 <= e < 3
     post: _ == ''
     """
-    return _dirfault(rt.sel(kind, 6), rt.sel(layout, 7), rt.sel(dsel, 17), rt.sel(e, 3))
+    return _dirfault(rt.sel(kind, 6), rt.sel(layout, 8), rt.sel(dsel, 17), rt.sel(e, 3))
 
 
 FAR_ERRNOS = [errno.EACCES, errno.EROFS, errno.ENOSPC]
@@ -241,10 +246,10 @@ def obligations(tier):
         CH('W_persistent_fault', MOD, 'w_persistent', timeout=1800, partitions=parts, engine='W', regime='selector', encodes=enc,
            stubs=K.STUBS, bounds='same space; after the first injection every later call of the same kind in the same directory fails too'),
     ]
-    obs.append(CH('W_one_cause_directory_not_modifiable', MOD, 'w_dirfault', timeout=1800, partitions=list(range(7)), engine='W', regime='selector', encodes=enc,
+    obs.append(CH('W_one_cause_directory_not_modifiable', MOD, 'w_dirfault', timeout=1800, partitions=list(range(8)), engine='W', regime='selector', encodes=enc,
                   stubs=K.STUBS + ['every system call adding / removing / renaming an entry of directory D (or of any directory of a volume) fails with one errno; rename across devices answers EXDEV first, as Linux does'],
                   bounds='17 directories D (parent of the source, the source, volume root, .Trash, $uid, files, info, .Trash-$uid, files, info, home trash, files, info, whole volume /v, whole volume /, ~/.local/share, ~) '
-                         'x {EACCES, EROFS, ENOSPC} x 6 kinds x 7 layouts (incl. the cross-volume home fallback): arbitrarily many faulted calls with one cause'))
+                         'x {EACCES, EROFS, ENOSPC} x 6 kinds x 8 layouts (incl. the cross-volume home fallback, and a home trash that is a symbolic link to another volume): arbitrarily many faulted calls with one cause'))
     if tier == 'thorough':
         obs.append(CH('W_fault_pairs_far_apart', MOD, 'w_farpair', timeout=7000, partitions=[(k, l) for k in (0, 2, 3) for l in range(6)], twin=False, engine='W', regime='selector',
                       encodes=enc, stubs=K.STUBS, bounds='pairs k1<k2<72 of faulted calls with the same errno from {EACCES, EROFS, ENOSPC}; 3 kinds x 6 layouts'))
